@@ -566,6 +566,18 @@ func (g *G) declStmt() {
 }
 
 func (g *G) assignStmt() {
+	if g.r.Chance(0.06) {
+		// the predefined globals are ordinary assignable variables; the conversion built-ins write to them as well
+		if g.r.Chance(0.5) {
+			g.emit("err = %s", g.expr(Bool, 2))
+		} else {
+			g.emit("errmsg = %s", g.expr(Str, 1))
+		}
+		if g.r.Chance(0.5) {
+			g.emit("print (str2num %s) err errmsg", []string{"\"12x\"", "\"7\"", "\"\""}[g.r.Intn(3)])
+		}
+		return
+	}
 	vs := g.visible()
 	var ws []*variable
 	for _, v := range vs {
